@@ -290,6 +290,7 @@ class Trench:
         """
 
         self._wall_length = self.block.length
+        self._floor_length = 0.0
         polygon_list = [self.block]
 
         for _ in range(self.num_insets):
